@@ -83,7 +83,7 @@ static bool apply(polyseed_data* s, pv_mseed* m, const char* pw, const char* pwc
     /* the operation has no way to report failure, so it must do its job whatever the allocator says: in a quarter of the
      * applications the next allocation request (if the operation makes any) is refused */
     bool armed = g_rng && pv_randn(g_rng, 4) == 0;
-    if (armed) { pv_w->fail_countdown = 1 + (int)pv_randn(g_rng, 2); PV_COUNT("crypt.with_failing_allocator", 1); }
+    if (armed) { pv_arm_some_request(); PV_COUNT("crypt.with_failing_allocator", 1); }
     pv_api_crypt(s, pw);
     if (armed) { if (pv_w->fail_countdown == 0) PV_COUNT("crypt.with_failing_allocator(request refused)", 1); pv_w->fail_countdown = 0; }
     int nk_ev = pv_ev_count(PV_EV_KDF);
@@ -218,7 +218,7 @@ static void run_equiv(uint64_t idx, pv_rng* rng) {
         polyseed_data* s = pv_seed_from_model(&m);
         if (!s) break;
         char* in = pv_exact_str(forms[k]);
-        if ((idx + (uint64_t)k) % 3 == 0) pv_w->fail_countdown = 1;          /* a refused allocation must not make the spelling matter */
+        if ((idx + (uint64_t)k) % 3 == 0) pv_arm_some_request();          /* a refused allocation must not make the spelling matter */
         pv_api_crypt(s, in); PV_COUNT("evaluations", 1);
         pv_w->fail_countdown = 0;
         uint8_t* o = malloc(32); pv_api_store(s, o); memcpy(outs[k], o, 32); free(o);
